@@ -13,8 +13,8 @@ use sv_parser_parser::{sv_parser, Span, SpanInfo};
 
 pub fn cases(tier: Tier) -> u64 {
     match tier {
-        Tier::Quick => 6000,
-        Tier::Thorough => 150000,
+        Tier::Quick => 9000,
+        Tier::Thorough => 200000,
         Tier::Tiny => 16,
     }
 }
@@ -153,7 +153,8 @@ pub fn run_case(env: &Env, ctx: &mut Ctx, idx: u64) {
         // which inserted ingredient is responsible (for the message only)
         let ff = relaid.contains('\u{c}');
         let m = format!("[{} path] {}{}", path, msg, if ff { " (the new trivia contains a form feed)" } else { "" });
-        ctx.violation("trivia-changes-parse", if k3 { "K3" } else { "" }, &m, witness(&m));
+        let (sig, note) = crate::memo_cfg::attribute(env, if k3 { "K3" } else { "" });
+        ctx.violation("trivia-changes-parse", &sig, &format!("{}{}", m, note), witness(&m));
     }
     ctx.nontrivial(hash_strs(&[&orig, &relaid]));
     if ctx.want_sample() {
